@@ -111,7 +111,13 @@ def optimize_high_level_cmd_stream(sg, arch):
     slot_size = 256
     lut_start = arch.shram_lut_address
     lut_end = lut_start + arch.shram_lut_size
+    # An operator that is executed in several stripes gets one LUT DMA per stripe, and the table need not end up in the
+    # same slot every time (it may be found resident for one stripe and have to be placed again for the next one): the
+    # slot is recorded per command, the lut_index of the operator only holds the most recent one
+    slot_of_pass = {}
     for cmd in sg.high_level_command_stream:
+        if isinstance(cmd, NpuStripe) and cmd.ps in slot_of_pass:
+            cmd.lut_index = slot_of_pass[cmd.ps]
         if isinstance(cmd, NpuStripe) and cmd.ps.lut_tensor is None and arch.shram_reserved_unused_banks == 0:
             # The command overwrites the last 2 banks containing the LUT; next LUT operation will require DMA
             # TODO: check the command's SHRAM usage in more detail to determine if the LUT is overwritten or not
@@ -128,6 +134,7 @@ def optimize_high_level_cmd_stream(sg, arch):
             lut_tens.equivalence_id = existing_tens.equivalence_id
             lut_tens.address = existing_tens.address
             cmd.ps.primary_op.activation.lut_index = get_lut_index(arch, existing_tens)
+            slot_of_pass[cmd.ps] = cmd.ps.primary_op.activation.lut_index
             continue
         # Place the LUT in the last 2 blocks of SHRAM
         # Alignment is always on the size of the LUT, 256 for 256-byte LUT, 1K for 1K LUT, etc
@@ -135,6 +142,8 @@ def optimize_high_level_cmd_stream(sg, arch):
         lut_tens.equivalence_id = uuid.uuid4()
         lut_tens.address = address
         cmd.ps.primary_op.activation.lut_index = (address - lut_start) // slot_size
+        slot_of_pass[cmd.ps] = cmd.ps.primary_op.activation.lut_index
+        cmd.lut_address = address
         lut_state = lut_state.put(lut_tens)
         cmd_stream.append(cmd)
     sg.high_level_command_stream = cmd_stream
